@@ -14,6 +14,7 @@ pub mod c11;
 pub mod c12;
 pub mod c14;
 pub mod c15;
+pub mod c16;
 pub mod evt;
 pub mod smoke;
 
@@ -33,6 +34,7 @@ pub fn dispatch(a: &ShardArgs) -> Result<(), String> {
         "c12" => c12::run(a),
         "c14" => c14::run(a),
         "c15" => c15::run(a),
+        "c16" => c16::run(a),
         "smoke" => smoke::run(a),
         other => Err(format!("unknown check {other}")),
     }
